@@ -32,3 +32,10 @@ CHECKS["C09"] = dict(
     rule="explicit-state BFS over operation histories of the REAL ed25519.BatchVerifier (alphabet: Add/AddWithOptions/AddExpanded/AddExpandedWithOptions of ~20 crafted entry kinds x option sets, ForceNoPublicKeyExpansion, Reset, Verify, VerifyBatchOnly with three entropy readers; successor = replay on a fresh object + one op; state key = digest of every field of the real object), macro histories with batch sizes on both sides of the 94-entry expansion limit and the 190/500/800-term multiscalar limits, the complete reachable LRU-state graph of the caching Verifier for capacities 1..3(4), and expanded-vs-single verification on every (case, option set). Oracle = the library's own single-signature verification of each entry (documented panic -> false), as the property states. Non-trivial = history with a non-empty batch / non-initial cache state",
     assumptions=["batch soundness error 2^-125 with the fixed entropy streams", "crafted-input expectations (vacuity guards) are evaluated with single verification, whose own correctness is C01"],
 )
+
+CHECKS["C08"] = dict(
+    custom="c08_trace", bin="c08", level="exploration", engine="tracecmp",
+    technique="exhaustive paired-execution comparison (2-safety): the complete machine-level instruction-address and data-address trace of the real binary (valgrind lackey) is recorded for every secret of a finite secret alphabet x every constant-time entry point x every backend configuration, and all traces of a window are required to be identical; no sampling",
+    rule="for each of ~70 constant-time entry points (windows) and each secret assignment sigma of the alphabet, the kept trace (instructions inside library/crypto symbols, plus mem*/bytealg/bytes routines entered from them, with every load/store address) must be bit-identical to the trace for sigma0, in each of the four configurations; sigma0 is traced twice as a determinism self-check; a difference counts only if it reproduces in 5 fresh run pairs. Non-trivial = (window, sigma) with sigma != sigma0",
+    assumptions=["trace identity on a finite secret alphabet (complete for table indices [-8,8] and selector bits), not a proof for all secrets", "micro-architectural leakage below instruction/address level is out of scope", "valgrind lackey reports every executed guest instruction and memory access"],
+)
